@@ -4,7 +4,7 @@ from .base_array import base_array
 from .composite import codec_kind, distance_to_next_multiply, field_alignment, struct_packed
 from .descriptor import DescriptorField
 from .exception import ProphyError
-from .scalar import u32
+from .scalar import enum, u32
 from .six import long
 
 
@@ -191,6 +191,10 @@ class struct_generator(_composite_generator_base):
                 msg = "struct member's ({}.{}) type must be a prophy object, is: {!r}"
                 raise ProphyError(msg.format(cls.__name__, field.name, field.type))
 
+        duplicates = ", ".join(_list_duplicates(field.name for field in cls._descriptor))
+        if duplicates:
+            raise ProphyError("names overlap in '{}' struct, duplicates: {}".format(cls.__name__, duplicates))
+
         types = list(cls._types())
         for type_ in types[:-1]:
             if type_._UNLIMITED:
@@ -371,7 +375,7 @@ class struct_generator(_composite_generator_base):
         if sizer_item.type._OPTIONAL:
             msg = "array {}.{} must not be bound to optional field"
             raise ProphyError(msg.format(cls.__name__, container_item.name))
-        if not issubclass(sizer_item.type, (int, long)):
+        if not issubclass(sizer_item.type, (int, long)) or issubclass(sizer_item.type, enum):
             msg = "array {}.{} must be bound to an unsigned integer"
             raise ProphyError(msg.format(cls.__name__, container_item.name))
 
@@ -431,6 +435,17 @@ class union_generator(_composite_generator_base):
                 raise ProphyError("static array not implemented in union")
             if type_._OPTIONAL:
                 raise ProphyError("union with optional field disallowed")
+
+        duplicates = ", ".join(_list_duplicates(field.name for field in cls._descriptor))
+        if duplicates:
+            raise ProphyError("names overlap in '{}' union, duplicates: {}".format(cls.__name__, duplicates))
+        duplicates = ", ".join(str(x) for x in _list_duplicates(field.discriminator for field in cls._descriptor))
+        if duplicates:
+            raise ProphyError("discriminators overlap in '{}' union, duplicates: {}".format(cls.__name__, duplicates))
+        for field in cls._descriptor:
+            if not 0 <= field.discriminator <= u32._MAX:
+                msg = "discriminator of {}.{} out of 32-bit unsigned range"
+                raise ProphyError(msg.format(cls.__name__, field.name))
 
     def add_attributes(cls):
         cls._ALIGNMENT = max(u32._ALIGNMENT, max(type_._ALIGNMENT for type_ in cls._types()))
